@@ -199,14 +199,25 @@ func generate(tier string, r *rng.R) []scenario {
 			add("baseline", true, d, o, apply(0, "linear"))
 		}
 	}
-	// [nonlinear-fail] an out-of-order file failing midway under non-linear (known finding)
-	for _, k := range []int{0, 1} {
-		bad := mk("2", false)
-		bad.Bad = k
-		nl := apply(0, "non-linear")
-		nl.TxMode = "none"
-		add("nonlinear-fail", false, dirSpec{mk("1", false), mk("3", false)},
-			apply(0, "linear"), op{Kind: "add", Files: []fileSpec{bad}}, nl, apply(0, "non-linear"))
+	// [nonlinear-fail] an out-of-order file failing midway under non-linear: a partially applied
+	// revision that is not the latest one (formerly known finding C11-nonlinear-partial-not-resumed)
+	for _, init := range []dirSpec{{mk("1", false), mk("3", false)}, {mk("1", false), mk("3", false), mk("4", false)}, {mk("1", false), mk("4", false)}} {
+		for _, k := range []int{0, 1} {
+			bad := mk("2", false)
+			bad.Bad = k
+			nl := apply(0, "non-linear")
+			nl.TxMode = "none"
+			pre := []op{apply(0, "linear"), {Kind: "add", Files: []fileSpec{bad}}, nl}
+			for _, cont := range [][]op{
+				{apply(0, "non-linear")},
+				{{Kind: "fix", Ver: "2"}, apply(0, "non-linear"), apply(0, "non-linear")},
+				{{Kind: "fix", Ver: "2"}, apply(0, "linear")},
+				{{Kind: "fix", Ver: "2"}, apply(0, "linear-skip")},
+				{{Kind: "set", Arg: init[len(init)-1].Ver}, {Kind: "fix", Ver: "2"}, apply(0, "non-linear")},
+			} {
+				add("nonlinear-fail", false, init, append(append([]op{}, pre...), cont...)...)
+			}
+		}
 	}
 	// [gone] the partially applied file disappears (MissingMigrationError / "migration file with version not found")
 	for _, k := range []int{0, 1} {
